@@ -53,7 +53,17 @@ type ViolationEvidence struct {
 	Vars    map[string]uint64 `json:"model,omitempty"`
 }
 
+type LemmaEvidence struct {
+	File         string   `json:"file"`
+	Answers      []string `json:"answers"`
+	OK           bool     `json:"discharged"`
+	SolverS      float64  `json:"solver_s"`
+	TableChecked bool     `json:"go_table_equals_bitwise_definition,omitempty"`
+	Detail       string   `json:"detail,omitempty"`
+}
+
 type Coverage struct {
+	Lemmas           []LemmaEvidence          `json:"lemmas,omitempty"`
 	States           int                      `json:"states"`
 	Transitions      int                      `json:"transitions"`
 	TracesValidated  int                      `json:"traces_validated_against_impl"`
